@@ -37,6 +37,11 @@ func main() {
 		fmt.Fprintf(mw, "%s\t%s\t%s\n", id, note, expect)
 	}
 	switch family {
+	case "srcfacts":
+		if err := writeSrcFacts(out); err != nil {
+			fmt.Fprintln(os.Stderr, err)
+			os.Exit(1)
+		}
 	case "suite2020", "suite7":
 		d := "2020"
 		if family == "suite7" {
